@@ -156,6 +156,19 @@ func init() {
 		}
 		return a[1]
 	}
+	// verifMaxAlloc(f) runs f and returns the byte size of the largest single make() it performed (natively: the
+	// TotalAlloc delta, an upper bound of it).
+	verifAPI["verifMaxAlloc"] = func(c *Ctx, fn *ssa.Function, a []Value) Value {
+		savedT, savedM := c.allocTracking, c.allocMaxTerm
+		c.allocTracking, c.allocMaxTerm = true, nil
+		c.callValue(a[0], nil, nil)
+		r := c.allocMaxTerm
+		c.allocTracking, c.allocMaxTerm = savedT, savedM
+		if r == nil {
+			return c.intConst(0)
+		}
+		return r
+	}
 	verifAPI["verifSymbolic"] = func(c *Ctx, fn *ssa.Function, a []Value) Value {
 		return c.tb.Bool(c.concreteVec == nil)
 	}
